@@ -421,3 +421,18 @@ def selection_violation(case, obs, what=("selection", "order")):
             return (f"processing order does not follow the sort key over all input directories: keys in processing order "
                     f"{keys[:12]} (invert {case['invert']}, roots {case['roots']})")
     return None
+
+
+def refused_valid_name(case, obs):
+    """a generated NAME (name / directory mode) that is refused although it is a valid file name here: not empty, not
+    '.' or '..', no separator, no NUL — judged on the plan value itself, independently of the tool's own validation"""
+    if case["mode"] == "path":
+        return None
+    for d, rel, g in obs["gens"]:
+        if g[0] != "I":
+            continue
+        key = d + "|" + rel
+        planned = case["plan"].get(key, os.path.basename(rel)).strip()      # (an ad-hoc tag's value is its stripped output)
+        if planned not in ("", ".", "..") and "/" not in planned and "\x00" not in planned and len(planned.encode()) <= 255:
+            return f"the generated name {planned!r} for {d}/{rel} is a valid file name but was refused as invalid"
+    return None
